@@ -11,6 +11,7 @@ import (
 	"strconv"
 	"strings"
 	"sync"
+	"sync/atomic"
 	"testing"
 	"time"
 )
@@ -43,6 +44,11 @@ type Reporter struct {
 	exhaustive  bool
 	nviol       int
 	firstState  string
+	progress    atomic.Int64
+	finished    atomic.Bool
+	curCase     int
+	curSig      string
+	curDesc     string
 }
 
 func TestMain(m *testing.M) {
@@ -87,8 +93,32 @@ func NewReporter(t *testing.T) *Reporter {
 		}
 	}
 	r.deadline = r.start.Add(dl)
+	r.progress.Store(time.Now().UnixNano())
+	go r.watchdog()
 	return r
 }
+
+// watchdog runs outside any synctest bubble: if no case begins or finishes for a long wall-clock time the server
+// code is spinning or stuck (a hang is a property violation, not a harness condition); the worker reports the
+// case announced by the last Begin and exits so the driver can continue after it.
+func (r *Reporter) watchdog() {
+	limit := 90 * time.Second
+	for {
+		time.Sleep(2 * time.Second)
+		if r.finished.Load() {
+			return
+		}
+		if time.Since(time.Unix(0, r.progress.Load())) > limit {
+			r.mu.Lock()
+			r.emit(map[string]any{"t": "hang", "case": r.curCase, "sig": r.curSig, "desc": r.curDesc})
+			r.w.Flush()
+			r.mu.Unlock()
+			os.Exit(3)
+		}
+	}
+}
+
+func (r *Reporter) Tick() { r.progress.Store(time.Now().UnixNano()) }
 
 func (r *Reporter) Thorough() bool { return r.Tier == "thorough" }
 
@@ -119,7 +149,9 @@ func (r *Reporter) emit(v any) {
 
 // Begin marks the start of a crash-prone case; flushed so the driver can attribute a worker death.
 func (r *Reporter) Begin(idx int, sig, desc string) {
+	r.Tick()
 	r.mu.Lock()
+	r.curCase, r.curSig, r.curDesc = idx, sig, desc
 	r.emit(map[string]any{"t": "begin", "case": idx, "sig": sig, "desc": desc})
 	r.w.Flush()
 	r.mu.Unlock()
@@ -167,7 +199,7 @@ func (r *Reporter) Nontrivial(key string) {
 	r.nontrivial[h64(key)] = struct{}{}
 	r.mu.Unlock()
 }
-func (r *Reporter) Transition(n int64) { r.mu.Lock(); r.transitions += n; r.mu.Unlock() }
+func (r *Reporter) Transition(n int64) { r.Tick(); r.mu.Lock(); r.transitions += n; r.mu.Unlock() }
 func (r *Reporter) Eval(n int64)       { r.mu.Lock(); r.evals += n; r.mu.Unlock() }
 func (r *Reporter) Trace(n int64)      { r.mu.Lock(); r.traces += n; r.mu.Unlock() }
 func (r *Reporter) Outcome(k string)   { r.mu.Lock(); r.outcomes[k]++; r.mu.Unlock() }
@@ -199,6 +231,7 @@ func (r *Reporter) NotExhaustive(why string) {
 }
 
 func (r *Reporter) Done() {
+	r.finished.Store(true)
 	r.mu.Lock()
 	defer r.mu.Unlock()
 	if len(r.samples) == 0 && r.firstState != "" {
